@@ -347,6 +347,31 @@ func c08Faults() []fault {
 	add("batch-later-request-bad-index-key", func(r *rand.Rand, t string, p, a val.Item) []adapt.Op {
 		return one(adapt.Op{Kind: adapt.OpBatchWrite, Batch: []adapt.BatchEntry{{Table: t, Put: ixItem(a["h"].Str, a["r"].Str, "x", "1", 86)}, {Table: t, Put: badIndexItem("b4", "1", 0)}}})
 	})
+	// ... failing for what one of its VALUES is (a number that is no number, a value without a data type, a key with
+	// a malformed surplus attribute), not for its keys: still the whole batch, before anything is written
+	add("batch-later-request-bad-number", func(r *rand.Rand, t string, p, a val.Item) []adapt.Op {
+		bad := ixItem("b6", "1", "x", "1", 1)
+		bad["cnt"] = val.V{K: val.KN, Str: "abc"}
+		return one(adapt.Op{Kind: adapt.OpBatchWrite, Batch: []adapt.BatchEntry{{Table: t, Put: ixItem(a["h"].Str, a["r"].Str, "x", "1", 91)}, {Table: t, Del: k(p)}, {Table: t, Put: bad}}})
+	})
+	add("batch-later-request-bad-nested-number", func(r *rand.Rand, t string, p, a val.Item) []adapt.Op {
+		bad := ixItem("b6", "2", "x", "1", 1)
+		bad["doc"] = val.Map(map[string]val.V{"l": val.List(val.Str("x"), val.V{K: val.KNS, Set: []string{"1", "1e999"}})})
+		return one(adapt.Op{Kind: adapt.OpBatchWrite, Batch: []adapt.BatchEntry{{Table: t, Del: k(p)}, {Table: t, Put: ixItem(a["h"].Str, a["r"].Str, "x", "1", 92)}, {Table: t, Put: bad}}})
+	})
+	add("batch-later-request-untyped-value", func(r *rand.Rand, t string, p, a val.Item) []adapt.Op {
+		bad := ixItem("b6", "3", "x", "1", 1)
+		bad["doc"] = val.List(val.Str("x"), val.Invalid("empty"))
+		return one(adapt.Op{Kind: adapt.OpBatchWrite, Batch: []adapt.BatchEntry{{Table: t, Put: ixItem(a["h"].Str, a["r"].Str, "x", "1", 93)}, {Table: t, Del: k(p)}, {Table: t, Put: bad}}})
+	})
+	add("batch-later-delete-key-with-bad-number", func(r *rand.Rand, t string, p, a val.Item) []adapt.Op {
+		badKey := k(p).Clone()
+		badKey["cnt"] = val.V{K: val.KN, Str: "NaN"}
+		return one(adapt.Op{Kind: adapt.OpBatchWrite, Batch: []adapt.BatchEntry{{Table: t, Put: ixItem(a["h"].Str, a["r"].Str, "x", "1", 94)}, {Table: t, Del: badKey}}})
+	})
+	add("batch-two-tables-bad-number-in-other-table", func(r *rand.Rand, t string, p, a val.Item) []adapt.Op {
+		return one(adapt.Op{Kind: adapt.OpBatchWrite, Batch: []adapt.BatchEntry{{Table: t, Put: ixItem(a["h"].Str, a["r"].Str, "x", "1", 95)}, {Table: t, Del: k(p)}, {Table: "oth08", Put: val.Item{"h": val.Str("o9"), "z": val.V{K: val.KN, Str: "Infinity"}}}}})
+	})
 	add("batch-unknown-table-among-valid", func(r *rand.Rand, t string, p, a val.Item) []adapt.Op {
 		return one(adapt.Op{Kind: adapt.OpBatchWrite, Batch: []adapt.BatchEntry{{Table: t, Put: ixItem(a["h"].Str, a["r"].Str, "x", "1", 87)}, {Table: t, Del: k(p)}, {Table: "nosuchtable", Put: ixItem("b5", "1", "x", "1", 1)}}})
 	})
